@@ -147,10 +147,13 @@ bool Context::DeleteCandidate(size_t index) {
   if (composition_.empty())
     return false;
   Segment& seg(composition_.back());
-  seg.selected_index = index;
-  DLOG(INFO) << "Deleting candidate: " << seg.GetSelectedCandidate()->text();
-  delete_notifier_(this);
-  return true;  // CAVEAT: this doesn't mean anything is deleted for sure
+  if (auto cand = seg.GetCandidateAt(index)) {
+    seg.selected_index = index;
+    DLOG(INFO) << "Deleting candidate: " << cand->text();
+    delete_notifier_(this);
+    return true;  // CAVEAT: this doesn't mean anything is deleted for sure
+  }
+  return false;
 }
 
 bool Context::DeleteCurrentSelection() {
